@@ -157,6 +157,23 @@ AREAS: dict = {}
 OWNER: dict = {}
 
 
+CURRENT_AREA = [None]
+
+
+def _scoped(f, real, enc, area=None):
+    def g(t):
+        global REALIZE, ENCODE
+        saved = (REALIZE, ENCODE, CURRENT_AREA[0])
+        REALIZE, ENCODE = real, enc
+        CURRENT_AREA[0] = area
+        try:
+            return f(t)
+        finally:
+            REALIZE, ENCODE = saved[0], saved[1]
+            CURRENT_AREA[0] = saved[2]
+    return g
+
+
 def _load_plugins():
     import importlib
     import os
@@ -169,6 +186,8 @@ def _load_plugins():
     for fn in sorted(os.listdir(here)):
         if fn.startswith("ops_src_") and fn.endswith(".py"):
             CALLS, REALIZE, ENCODE = {}, {}, []       # what this plug-in registers goes here
+            import ops as _ops
+            before = dict(_ops.IMPL)
             try:
                 import sys
                 if fn[:-3] in sys.modules:
@@ -181,6 +200,10 @@ def _load_plugins():
             AREAS[fn[:-3]] = (CALLS, REALIZE, ENCODE)
             for f in CALLS:
                 OWNER[f] = fn[:-3]
+            # an op the plug-in defines itself (e.g. `srcc13`) realises and encodes values with the plug-in's own tables
+            for opname, f in list(_ops.IMPL.items()):
+                if before.get(opname) is not f and opname != "src":
+                    _ops.IMPL[opname] = _scoped(f, REALIZE, ENCODE, fn[:-3])
             all_calls.update(CALLS)
             for k, v in REALIZE.items():
                 all_real.setdefault(k, v)
@@ -191,6 +214,9 @@ def _load_plugins():
 
 def _call(f: str, a: list):
     _load_plugins()
+    cur = CURRENT_AREA[0]
+    if cur in AREAS and f in AREAS[cur][0]:
+        return AREAS[cur][0][f](a)
     if f in CALLS:
         return CALLS[f](a)
     import htmltools
@@ -232,7 +258,11 @@ def _src(t: Toks) -> str:
     _load_plugins()
     f = t.next()
     saved = (REALIZE, ENCODE)
-    if f in OWNER:
+    cur = CURRENT_AREA[0]
+    if cur in AREAS and f in AREAS[cur][0]:
+        # reached through an area's own op: that area's function of this name, with that area's value tables
+        _, REALIZE, ENCODE = AREAS[cur]
+    elif f in OWNER:
         _, REALIZE, ENCODE = AREAS[OWNER[f]]
     else:
         REALIZE, ENCODE = {}, []          # the functions of the core: the built-in value shapes only
